@@ -1,8 +1,8 @@
 (** Property C09: subcommand dispatch follows argv, and global arguments agree at every level.
-    This file contains only the pinned statements; proofs live in ParseProofs/{Globals,Dispatch,Chain}.v. *)
+    This file contains only the pinned statements; proofs live in ParseProofs/{Globals,Dispatch,Chain,ChainWide}.v. *)
 From ClapModel Require Import Base.Bytes Base.Machine Base.Utf8 Lex.OsStrExtModel.
 From ClapModel Require Import Parse.Cmd Parse.Build Parse.Valid Parse.Matcher Parse.Errors Parse.Validator Parse.Parser.
-From ClapModel Require Import ParseProofs.Globals ParseProofs.Dispatch ParseProofs.Chain.
+From ClapModel Require Import ParseProofs.Globals ParseProofs.Dispatch ParseProofs.Chain ParseProofs.ChainWide.
 From Coq Require Import ZArith.
 From RecordUpdate Require Import RecordSet.
 Import RecordSetNotations.
@@ -360,3 +360,243 @@ Theorem C09_chain_globals : forall c0 toks names ext m',
          (m_source e0 = Some SCmdLine -> m_source e = Some SCmdLine)).
 Proof. exact do_parse_gline. Qed.
 Print Assumptions C09_chain_globals.
+
+(** ** third pass (ParseProofs/ChainWide.v): positionals, inference, `--`, the class [wline] *)
+
+(** one value token of a positional argument, in state ValuesDone or while the same positional collects
+    values ([PSPos]): [plain_tok] = not `--`, not a long, not a short; [takes_at] = the positional at the
+    counter is not `last`/trailing-var-arg, the token is not its terminator, the counter needs no
+    correction ([pos_plain]: no low-index multiples, no allow_missing_positional); the token is not read
+    as a subcommand in that state.  The loop pushes the token ([pos_push]) and goes on: counter + 1 for a
+    single-valued positional, state [PSPos] for a multi-valued one *)
+Theorem C09_positional_step : forall c pst tok a rest pos vaf st,
+  match pst with PSOpt _ => False | _ => True end ->
+  (if is_set s_sub_precedence c || match pst with PSValuesDone => true | _ => false end
+   then possible_subcommand c tok vaf else None) = None ->
+  plain_tok tok -> takes_at c pos a tok ->
+  parse_loop c (tok :: rest) (mkL pst pos vaf false) st =
+  (do st' <- pos_push c a tok st; parse_loop c rest (after_pos a pos) st').
+Proof. exact loop_pos_step. Qed.
+Print Assumptions C09_positional_step.
+
+(** class [pitems c pos pre F pos']: [pre] consists of the option items of [prefix_ok] AND values of
+    single-valued positionals (each becomes the pending occurrence, as `--opt v` does: [sep_fn … IIndex]);
+    the loop consumes it item by item and reaches the next token in state ValuesDone with the counter
+    advanced by the number of positional values *)
+Theorem C09_loop_positionals : forall c pos pre F pos', pitems c pos pre F pos' ->
+  forall rest vaf st, fs_skip st = 0 ->
+  parse_loop c (pre ++ rest) (lsV pos vaf) st =
+  (do st' <- F st; parse_loop c rest (lsV pos' (vaf || negb (is_nil pre))) st').
+Proof. exact loop_pitems. Qed.
+Print Assumptions C09_loop_positionals.
+
+(** a multi-valued positional ([multi_vals]: the first value is not a subcommand; the further values are
+    plain words — with [subcommand_precedence_over_arg] on THIS level none of them a subcommand, without it
+    ANY plain word): every value is pushed, the loop stays in state [PSPos] *)
+Theorem C09_multi_positional : forall c pos a v1 vs, multi_vals c pos a v1 vs -> forall rest vaf st,
+  parse_loop c ((v1 :: vs) ++ rest) (lsV pos vaf) st =
+  (do st' <- push_all c a (v1 :: vs) st; parse_loop c rest (mkL (PSPos (a_id a)) pos true false) st').
+Proof. exact loop_multi. Qed.
+Print Assumptions C09_multi_positional.
+
+(** … so without the setting a subcommand NAME behind the values is swallowed as one more value … *)
+Theorem C09_multi_positional_swallows_name : forall c pos a v1 vs tok,
+  multi_vals c pos a v1 vs -> is_set s_sub_precedence c = false ->
+  plain_tok tok -> takes_at c pos a tok ->
+  forall rest vaf st,
+  parse_loop c ((v1 :: vs) ++ tok :: rest) (lsV pos vaf) st =
+  (do st' <- push_all c a ((v1 :: vs) ++ [tok]) st; parse_loop c rest (mkL (PSPos (a_id a)) pos true false) st').
+Proof. exact multi_swallows_name. Qed.
+Print Assumptions C09_multi_positional_swallows_name.
+
+(** … and with the setting (read from the level the positional belongs to) it dispatches *)
+Theorem C09_multi_positional_precedence : forall c pos a v1 vs tok n,
+  multi_vals c pos a v1 vs -> is_set s_sub_precedence c = true -> nsel c tok n ->
+  is_set s_args_negate_subs c = false ->
+  forall rest vaf st,
+  parse_loop c ((v1 :: vs) ++ tok :: rest) (lsV pos vaf) st =
+  (do st' <- push_all c a (v1 :: vs) st; ROk (LSub n false true st' rest)).
+Proof. exact multi_then_name. Qed.
+Print Assumptions C09_multi_positional_precedence.
+
+(** selection by name, closed form of [possible_subcommand] ([nsel]: exact name/alias without inference;
+    with [infer_subcommands] the only element of [infer_list]; or an exact name/alias when the inference
+    finds none or several): the loop dispatches wherever it looks for subcommands *)
+Theorem C09_name_selection : forall c tok n, nsel c tok n -> is_set s_args_negate_subs c = false ->
+  forall pst, (is_set s_sub_precedence c || match pst with PSValuesDone => true | _ => false end) = true ->
+  forall rest pos vaf st,
+  parse_loop c (tok :: rest) (mkL pst pos vaf false) st = ROk (LSub n false vaf st rest).
+Proof. exact nsel_loop. Qed.
+Print Assumptions C09_name_selection.
+
+(** inference: when exactly one subcommand has a name or alias starting with [tok], what the loop selects
+    ([n]: that name, or the TEXT OF THE ALIAS) resolves to that subcommand [sc0] and to no other — so the
+    chain records its canonical name [c_name sc0] ([C09_chain_wide]) *)
+Theorem C09_infer_unique_target : forall c tok n, infer_list c tok = [n] ->
+  exists sc0, find_subcommand c n = Some sc0 /\ In sc0 (c_subs c) /\ sub_matches tok sc0 = true /\
+    aliases_to sc0 n = true /\ is_prefix tok n = true /\
+    (forall s, In s (c_subs c) -> sub_matches tok s = true -> s = sc0).
+Proof. exact infer_unique_target. Qed.
+Print Assumptions C09_infer_unique_target.
+
+(** an ambiguous prefix (two or more subcommands match, [tok] is no exact name or alias) never dispatches … *)
+Theorem C09_infer_ambiguous_not_dispatched : forall c tok,
+  is_set s_infer_sub c = true -> (2 <= length (infer_list c tok))%nat -> find_subcommand c tok = None ->
+  forall vaf, possible_subcommand c tok vaf = None.
+Proof. exact infer_ambiguous_no_sub. Qed.
+Print Assumptions C09_infer_ambiguous_not_dispatched.
+
+(** … and in a command without positionals and external subcommands it is rejected as InvalidSubcommand *)
+Theorem C09_infer_ambiguous_rejected : forall c tok rest pos vaf st,
+  is_set s_infer_sub c = true -> (2 <= length (infer_list c tok))%nat -> find_subcommand c tok = None ->
+  plain_tok tok -> pos_free c -> is_set s_allow_external c = false -> is_set s_args_negate_subs c = false ->
+  parse_loop c (tok :: rest) (lsV pos vaf) st =
+  (do st1 <- resolve_pending_ignore c st; RErr (mkerr c EInvalidSubcommand tok) st1).
+Proof. exact infer_ambiguous_rejected. Qed.
+Print Assumptions C09_infer_ambiguous_rejected.
+
+(** `--`: in a loop state with `--` seen — ANY command, tokens, counters, parser state — the loop never
+    selects a subcommand of the tree nor the help subcommand ([no_dispatch]: it ends, fails, or, only if
+    the command allows external subcommands, starts one) *)
+Theorem C09_escape_no_dispatch : forall c toks ls st, l_trailing ls = true ->
+  holds (no_dispatch c) (fun _ => True) (parse_loop c toks ls st).
+Proof. exact trailing_no_dispatch. Qed.
+Print Assumptions C09_escape_no_dispatch.
+
+(** [gline] (hence [line]) is a special case of the wide class *)
+Theorem C09_gline_is_wline : forall c b toks names ext, gline c b toks names ext -> wline c b toks names ext.
+Proof. exact gline_wline. Qed.
+Print Assumptions C09_gline_is_wline.
+
+(** the chain theorem for [wline]: per level options, single-valued positionals, optionally the values of a
+    multi-valued positional (which swallow subcommand names unless the level has
+    subcommand_precedence_over_arg); a level ends with the end of the line, with `--` and an arbitrary
+    tail, with a selecting token (name/alias — also inferred —, `--sub`, `-S`, first letter of a cluster;
+    behind multi-values only a name and only with precedence) or with an external subcommand.  No premise
+    on the selected children.  A successful parse reports exactly [names] *)
+Theorem C09_chain_wide : forall c b toks names ext, wline c b toks names ext ->
+  forall f st0 st, start_ok b st0 -> get_matches_with f c toks st0 = ROk st ->
+  chain (into_inner (mt st)) = names /\
+  match ext with
+  | Some vals => deepest (into_inner (mt st)) = [(ext_id, ext_marg vals)]
+  | None => True
+  end.
+Proof. exact chain_of_wline. Qed.
+Print Assumptions C09_chain_wide.
+
+(** what Chain.v assumed of the selected children ([canonical]: first child with its name, its name
+    resolves to it) is what the validity gate [assert_app] guarantees (unique names and aliases) *)
+Theorem C09_canonical_from_valid : forall c n sc0,
+  assert_app c = true -> find_subcommand c n = Some sc0 -> canonical c sc0.
+Proof. exact canonical_of_assert. Qed.
+Print Assumptions C09_canonical_from_valid.
+
+(** [C09_chain_globals] for the wide class and WITHOUT the [canonical] premise: [_do_parse] ran the gate
+    on the root ([valid c0], else no [OOk]) and the parser ran it on every child it descended into, so
+    [find_subcommand], [_build_subcommand] and [get_used_global_args] agree on every level of the line *)
+Theorem C09_chain_globals_wide : forall c0 toks names ext m',
+  wline (build_self c0) false toks names ext -> is_set s_ignore_errors (build_self c0) = false ->
+  do_parse c0 toks = OOk m' ->
+  exists m globals,
+    m' = fst (filled (S (matches_depth m)) globals m) /\
+    globals = used_global_args (S (matches_depth m)) (build_recursive (S (S (depth (build_self c0)))) c0) m /\
+    chain m = names /\ chain m' = names /\ length (levels m') = S (length names) /\
+    match ext with Some vals => deepest m = [(ext_id, ext_marg vals)] | None => True end /\
+    (forall lc a, In lc (lazy_cmds (build_self c0) (real_names names ext)) -> In a (c_args lc) -> a_global a = true ->
+       mem_id (a_id a) globals = true) /\
+    (forall g e0, mem_id g globals = true -> In (Some e0) (map (fm_get g) (levels m)) ->
+       exists e,
+         (forall lv, In lv (levels m') -> fm_get g lv = Some e) /\
+         In (Some e) (map (fm_get g) (levels m)) /\
+         mrank e0 <= mrank e /\
+         (m_source e0 = Some SCmdLine -> m_source e = Some SCmdLine)).
+Proof. exact do_parse_wline. Qed.
+Print Assumptions C09_chain_globals_wide.
+
+(** a user-defined subcommand named `help` with [disable_help_subcommand]: the word `help` selects it like
+    any other name ([nsel], so [C09_chain_wide] / [C09_chain_globals_wide] run through it) … *)
+Theorem C09_user_help_selected : forall c sc0,
+  is_set s_disable_help_sub c = true -> is_set s_infer_sub c = false ->
+  find_subcommand c s_help = Some sc0 -> nsel c s_help (c_name sc0).
+Proof. exact user_help_selected. Qed.
+Print Assumptions C09_user_help_selected.
+
+(** … and [_propagate_global_args] copies every global argument of the parent into it (the
+    [autogenerated_help] guard is off) *)
+Theorem C09_user_help_globals : forall c0 g sc',
+  s_built (c_set c0) = false -> is_set s_disable_help_sub (build_self c0) = true ->
+  has_global (build_self c0) g -> In sc' (c_subs (build_self c0)) -> c_name sc' = s_help ->
+  exists a', find_arg sc' g = Some a'.
+Proof. exact user_help_globals. Qed.
+Print Assumptions C09_user_help_globals.
+
+(** level isolation, one level of the wide class, as an equation and on the entries ([psel]: selection by
+    name — also inferred —, `--sub`, or a name behind multi-values with precedence) *)
+Theorem C09_level_isolation_wide : forall c pre F pst pos tok n f,
+  wprefix c false pre F pst pos -> psel c pst tok n -> is_set s_args_negate_subs c = false ->
+  forall rest st0, fs_skip st0 = 0 ->
+  get_matches_with (S f) c (pre ++ tok :: rest) st0 =
+  post c (do st' <- F st0; after_sub f c n false (negb (is_nil pre)) st' rest).
+Proof. exact wlevel_step. Qed.
+Print Assumptions C09_level_isolation_wide.
+
+(** level isolation at EVERY depth: [wsplit c toks names lv] splits the line into (definition, tokens) per
+    level; the entries the parser reports at level j are exactly [own_entries c_j toks_j] — what the tokens
+    of level j ALONE produce against the definition of level j (token loop from a fresh state, pending
+    occurrence, environment, defaults) *)
+Theorem C09_levels_own_entries : forall c toks names lv, wsplit c toks names lv ->
+  forall f st, get_matches_with f c toks ps_new = ROk st ->
+  map Some (levels (into_inner (mt st))) = map (fun p => own_entries (fst p) (snd p)) lv.
+Proof. exact levels_of_wsplit. Qed.
+Print Assumptions C09_levels_own_entries.
+
+Theorem C09_wsplit_is_wline : forall c toks names lv, wsplit c toks names lv -> wline c false toks names None.
+Proof. exact wsplit_wline. Qed.
+Print Assumptions C09_wsplit_is_wline.
+
+(** a global given explicitly at several levels, merge level: the command-line entry of the DEEPEST level
+    that has one is reported by every level of the result, whatever the levels above hold *)
+Theorem C09_deepest_explicit_wins : forall fuel globals m g l1 e l2,
+  (matches_depth m <= fuel)%nat -> mem_id g globals = true ->
+  map (fm_get g) (levels m) = l1 ++ Some e :: l2 ->
+  m_source e = Some SCmdLine ->
+  (forall e', In (Some e') l2 -> m_source e' <> Some SCmdLine) ->
+  forall lv, In lv (levels (fst (filled fuel globals m))) -> fm_get g lv = Some e.
+Proof. exact deepest_explicit_wins. Qed.
+Print Assumptions C09_deepest_explicit_wins.
+
+(** … and on the line: WHICH occurrence wins.  Level j = the deepest level whose own tokens produce a
+    command-line entry [e] for the global [g]; every level of the final matches reports [e] — the values
+    given at level j — also where levels above j gave other values *)
+Theorem C09_deepest_explicit_line : forall c0 toks names lv m' g l1 cj prej l2 ownj e,
+  wsplit (build_self c0) toks names lv -> is_set s_ignore_errors (build_self c0) = false ->
+  do_parse c0 toks = OOk m' ->
+  (exists lc a, In lc (lazy_cmds (build_self c0) names) /\ In a (c_args lc) /\ a_global a = true /\ a_id a = g) ->
+  lv = l1 ++ (cj, prej) :: l2 -> own_entries cj prej = Some ownj -> fm_get g ownj = Some e ->
+  m_source e = Some SCmdLine ->
+  (forall c' p' own' e', In (c', p') l2 -> own_entries c' p' = Some own' -> fm_get g own' = Some e' ->
+     m_source e' <> Some SCmdLine) ->
+  forall lvl, In lvl (levels m') -> fm_get g lvl = Some e.
+Proof. exact deepest_explicit_line. Qed.
+Print Assumptions C09_deepest_explicit_line.
+
+(** the head of the chain for an ARBITRARY rest of the line (in or outside any class; also under
+    ignore_errors): a level that succeeds after its arguments ([wprefix]) and a selecting token ([wsel])
+    records the canonical name of the subcommand the selection resolves to *)
+Theorem C09_level_head : forall c b pre F pst pos tok n keep rest f st0 st,
+  is_set s_args_negate_subs c = false -> wprefix c b pre F pst pos -> wsel c b pst pos tok n keep ->
+  start_ok b st0 -> get_matches_with (S f) c (pre ++ tok :: rest) st0 = ROk st ->
+  exists sc0 m, find_subcommand c n = Some sc0 /\ mt_sub (mt st) = Some (c_name sc0, m).
+Proof. exact wlevel_head. Qed.
+Print Assumptions C09_level_head.
+
+(** … in particular after an inferred prefix — also one that matches only an ALIAS: the level records the
+    [c_name] of the one subcommand [tok] is a prefix of, whatever follows *)
+Theorem C09_infer_head_canonical : forall c b pre F pos tok n rest f st0 st,
+  is_set s_args_negate_subs c = false -> wprefix c b pre F PSValuesDone pos ->
+  utf8_valid tok = true -> is_set s_infer_sub c = true -> infer_list c tok = [n] -> not_help c n ->
+  start_ok b st0 -> get_matches_with (S f) c (pre ++ tok :: rest) st0 = ROk st ->
+  exists sc0 m, mt_sub (mt st) = Some (c_name sc0, m) /\ In sc0 (c_subs c) /\ sub_matches tok sc0 = true /\
+    (forall s, In s (c_subs c) -> sub_matches tok s = true -> s = sc0).
+Proof. exact infer_head_canonical. Qed.
+Print Assumptions C09_infer_head_canonical.
